@@ -205,10 +205,19 @@ func (c *Ctx) checkMatMul(oi *opInfo) {
 				ok, why = false, "Repeat axis is not the loop variable"
 				continue
 			}
-			startOK := false
+			startOK, stepOK, condOK := false, false, false
+			if hdr := axis.Block(); len(hdr.Instrs) > 0 {
+				if iff, isIf := hdr.Instrs[len(hdr.Instrs)-1].(*ssa.If); isIf {
+					if bo, isB := iff.Cond.(*ssa.BinOp); isB && bo.X == ssa.Value(axis) {
+						if k, isK := constInt(bo.Y); isK && (bo.Op == token.GEQ && k == 0 || bo.Op == token.GTR && k == -1) {
+							condOK = true
+						}
+					}
+				}
+			}
 			for _, e := range axis.Edges {
 				if bo, isB := e.(*ssa.BinOp); isB && bo.Op == token.SUB {
-					if k, isK := constInt(bo.Y); isK && k >= 3 {
+					if k, isK := constInt(bo.Y); isK && k == 3 {
 						if lc, isL := bo.X.(*ssa.Call); isL {
 							if bi, isBi := lc.Common().Value.(*ssa.Builtin); isBi && bi.Name() == "len" {
 								startOK = true
@@ -216,17 +225,17 @@ func (c *Ctx) checkMatMul(oi *opInfo) {
 						}
 					}
 					if k, isK := constInt(bo.Y); isK && k == 1 && bo.X == ssa.Value(axis) {
-						continue // decrement
+						stepOK = true // decrement
 					}
 				}
 			}
 			// nMatrixDims is a local constant 3: `len(shapeA) - nMatrixDims`
-			if !startOK {
-				ok, why = false, "the batch loop does not start at len(shape)-3: it would stretch a matrix axis (an (..,1,K) operand is tiled instead of multiplied)"
+			if !startOK || !stepOK || !condOK {
+				ok, why = false, fmt.Sprintf("the batch loop does not walk exactly the batch axes len(shape)-3, ..., 0 (start=%v step=%v bound=%v): a matrix axis would be stretched (an (..,1,K) operand tiled instead of multiplied), or batch axes that both operands have are neither stretched nor checked for compatibility", startOK, stepOK, condOK)
 			}
 		}
 	}
-	c.decide(ok, "R16", key, c.pos(bc.Pos()), "batch broadcasting starts at axis len-3 and counts down: the two matrix axes are never stretched", why)
+	c.decide(ok, "R16", key, c.pos(bc.Pos()), "batch broadcasting walks the axes len-3 down to 0: every batch axis and never a matrix axis", why)
 
 	// vector promotions: A (n) -> (1,n) prepended; B (n) -> (n,1) appended; undone: prepended removes axis len-2, appended removes axis len-1
 	got := c.successTerms(apply)
